@@ -99,3 +99,8 @@ Theorem C04_tag_stops_if_none_match : forall tag r,
   if_none_match_refusals tag (h_if_none_match r) (d_if_none_match r) = [412%N].
 Proof. exact tag_stops_if_none_match. Qed.
 Print Assumptions C04_tag_stops_if_none_match.
+
+(** A stored file always has a non-empty tag, so "no tag" means "no resource". *)
+Theorem C04_file_tag_nonempty : forall m size, etag_of m size <> ""%string.
+Proof. exact file_tag_nonempty. Qed.
+Print Assumptions C04_file_tag_nonempty.
